@@ -36,7 +36,7 @@ use libp2p_core::{
 };
 use libp2p_identity::PeerId;
 use libp2p_peer_store::{
-    Behaviour, Store,
+    Behaviour,
     memory_store::{Config, Event, MemoryStore},
 };
 use libp2p_swarm::{
